@@ -417,6 +417,26 @@ def check_encapsulation(ctx, f, g):
     stages = {k for k in f.bodies if g.is_stage(k)}
     allowed_pub = {B + "::play_unchecked", B + "::set_halfmove_clock", B + "::set_fullmove_number", B + "::null_move"}
     allowed = cons | stages | allowed_pub
+    # private helpers are fine when every caller is itself an allowed writer (transitively)
+    callers = {}
+    for k, b in f.bodies.items():
+        for bb_, t_ in b.calls():
+            cn = callee_name(t_)
+            if cn in writers:
+                owner = k.split("::{closure")[0]
+                callers.setdefault(cn, set()).add(owner)
+    changed = True
+    while changed:
+        changed = False
+        for k in list(writers):
+            if k in allowed:
+                continue
+            fn = f.fns.get(k)
+            private = fn is not None and not fn["pub"] and not fn["exported"]
+            cs = callers.get(k, set())
+            if private and cs and cs <= allowed:
+                allowed.add(k)
+                changed = True
     bad = sorted(set(writers) - allowed)
     ctx.check(not bad, "closed-writer-set", "Board fields are written or lent mutably outside the constructors, their stages, play_unchecked, null_move and the clock setters: %s" % bad,
               sample={"writers": sorted(x.rsplit("::", 1)[-1] for x in writers)})
